@@ -513,7 +513,8 @@ def divide_outputs(
 
             try:
                 for d, x in result.items():
-                    mailboxes[d].send(x)
+                    if d in mailboxes:
+                        mailboxes[d].send(x)
             except Exception as e:
                 # Inform the source we're going down
                 source.throw(e)
